@@ -64,6 +64,34 @@ def scenarios(tier, mode="th"):
     return out
 
 
+def faulted_scenarios(tier):
+    """One injected I/O error in one of two overlapping calls ('whether the calls succeed, are rejected or fail with
+    an I/O error part-way'): every fault-site class of T1's call x every interleaving with T2's call."""
+    from .. import tscen
+    out = []
+    bases = [("t1A||t2A", "Aunref", [T1A], [T2A]), ("M1||M2", "meta", [M1], [M2]), ("d1||t2A", "p1A", [D1], [T2A])]
+    if tier == "thorough":
+        bases += [("d1||d2", "p1A,p2A", [D1], [D2]), ("M1||Da", "meta", [M1], [DA])]
+    for name, init, a, b in bases:
+        spec = {"name": name, "init": init, "threads": {"T1": a, "T2": b}, "pids": ("p1", "p2", "p3"),
+                "formats": (DEFAULT_NS,), "judge": "liveness", "followups": FOLLOW}
+        seen = set()
+        for k, occ in tscen.fault_classes(spec, "T1"):
+            if (k, occ) in seen:
+                continue
+            seen.add((k, occ))
+            for persistent in ((False, True) if tier == "thorough" else (False,)):
+                s = dict(spec, faults={"T1": (k, occ, "EIO", persistent)})
+                s["name"] = "%s from %s + %s EIO at T1's %s#%d" % (name, init, "persistent" if persistent else "one-off", k, occ)
+                out.append(s)
+    # the object move fails for good while the other thread places the same object
+    out.append({"name": "s1A||s2A from empty + persistent EIO at T1's object move", "init": "empty",
+                "threads": {"T1": [S1A], "T2": [S2A]}, "pids": ("p1", "p2", "p3"), "formats": (DEFAULT_NS,),
+                "judge": "liveness", "followups": FOLLOW,
+                "faults": {"T1": ("rename:rename:objects/tmp:objects", 0, "EIO", True)}})
+    return out
+
+
 def c08_check(info):
     r = info["run"]
     if any(r.locked.values()):
@@ -89,7 +117,7 @@ def _fjob(case):
 
 def main(tier):
     rep = common.Report("C08", tier, "model_checking")
-    specs = scenarios(tier, "th")
+    specs = scenarios(tier, "th") + faulted_scenarios(tier)
     results = run_scenarios(rep, specs)
     tot = {"executions": 0, "states": 0, "transitions": 0, "terminals": 0}
     per = {}
